@@ -3,28 +3,40 @@ import vlib
 class P(vlib.Prop):
     id = "C05"
     watch = ("pkg/apk/apk/implementation.go", "pkg/apk/expandapk/*.go", "pkg/apk/apk/install.go", "pkg/tarfs/fs.go", "pkg/build/installable_from_lock.go")
-    rule = ("install stage: for freshly built synthetic packages (fresh RSA key, synthrepo) every substitution of the statement — control of another build, data of another package, "
-            "a modified body, a modified / missing / undecodable per-file checksum, a different internally consistent package under the URL, wrong / absent / empty / duplicated datahash, "
-            "checksum strings without Q1 / not base64 / empty / of another build, nothing under the URL — each x {tarfs lazy install, memfs streaming install} x "
-            "{cache disabled; cold then again in a new process; warm from an earlier process; variant first then origin repaired; same request twice in one process}, "
-            "plus republished-URL sequences and generated sequences of 2-4 installs with random cache directories, process boundaries and origins; every install goes through the real "
-            "apk.New/InitDB/InstallPackages. Observed: success/failure, recorded pkgdesc, contents of installed regular files. A case is a sequence; distinct = label + outcome pattern.")
+    rule = ("install stage: 75 package variants in 9 families — every substitution of the statement (control of another build, data of another package, a modified body, "
+            "a modified / missing / undecodable / borrowed per-file checksum, a different internally consistent package under the URL, wrong / absent / empty / duplicated / upper-case datahash, "
+            "checksum strings without Q1 / not base64 / empty / of another build, nothing under the URL), symlinks, hard links (to a file, to a link, retargeted, dangling, before their target), a device entry, "
+            "top-level dot files, and every shape of the served byte stream (unsigned, bytes after the last member, truncated after the signature or control member, one member, no member, empty file, "
+            "doubled signature / control / data members, a foreign or empty member appended, a data section split over two members, a member after the end-of-archive marker, a control section "
+            "starting with a script / without .PKGINFO / that is an empty archive, a data section that is no tar, the fixed C05-F3 shape: two members the first of which starts with a .SIGN.* entry) "
+            "— each x {tarfs lazy install, memfs streaming install} x {cache disabled; cold then again in a new process; warm from an earlier process; warm without the uncompressed .dat.tar; "
+            "variant first then origin repaired; same request twice in one process} = 900 cells, every cell in the quick tier; plus republished-URL / memo-key sequences, the well-formed variants "
+            "behind a real signed index (FixateWorld), and generated sequences of 2-4 installs with random cache directories, process boundaries, origins and dropped tars. Every install goes "
+            "through the real apk.New/InitDB/InstallPackages. Observed: success/failure, recorded pkgdesc, contents of every file readable afterwards under a shipped regular-file or hard-link name. "
+            "A case is a sequence; distinct = label + outcome pattern; distribution bucket = family/history/install path:outcomes.")
     stages = (
         dict(name="install", cmd="c05", args=lambda t, s: []),
     )
     assumptions = (
-        "SHA-1 / SHA-256 are Section variables; c05_chain speaks about equality of digests; c05_data_authenticated states collision resistance as explicit hypotheses on the oracles",
-        "a served .apk is well-formed (signature member optional, one control member, one data member): gzip/tar decoding and stream counting in ExpandApk are not modelled",
-        "file conflicts between packages (C07) and the cache's crash/concurrency protocol (C19) are not part of this model; the on-disk cache is modelled as names -> contents, written only by cachePackage",
-        "hex of a byte string is injective, so <hex sha1>.ctl.tar.gz entries are keyed by the digest; .dat.tar.gz entries are keyed by name as text because the reader takes the name verbatim from datahash",
+        "SHA-1 / SHA-256 / base64 and the decoders (first tar header of a gzip member, .PKGINFO of a control member, multi-member gunzip, untar) are Section variables; "
+        "c05_chain speaks about equality of digests; c05_end_to_end, c05_data_authenticated and c05_content_addressing state collision resistance (sha1 injective, hex of sha256 injective) as explicit hypotheses on the oracles",
+        "a served file is a list of complete gzip members followed by bytes that are not one; the one-byte-at-a-time reader of ExpandApk is modelled as cutting the first member(s) exactly at their last byte "
+        "(justified in Model/PkgAuth.v at [cut_with]; exercised by the stream-shape variants), gzip/tar decoding itself is an oracle filled by the harness with the standard library's result",
+        "file conflicts between packages (C07), the cache's crash/concurrency protocol (C19) and the cache directory's path (C18) are not part of this model; the on-disk cache is modelled as three maps "
+        "name -> bytes (<sha1>.ctl.tar.gz, <name>.dat.tar.gz, <name>.dat.tar), written only by cachePackage and by PackageData's rebuild of a missing .dat.tar; the .sig.tar.gz file plays no part",
+        "hex of a byte string is injective, so <hex sha1>.ctl.tar.gz entries are keyed by the digest; .dat.tar.gz / .dat.tar entries are keyed by name as text because the reader takes the name verbatim from datahash",
+        "hard links: the target is looked up among the names this package wrote so far (exact text); links to symlinks / directories and duplicate names are C06/C07/C17 territory and are not generated",
     )
-    level_text = ("Theorems about an executable model of expandPackage (fetch, ExpandApk's per-file check, verifyExpanded, cachePackage, cachedPackage, the process-wide memo) and of the lazy and streaming installs, "
-                  "for all handles, served packages, cache contents satisfying the population invariant and memo states; tied to the code by differential comparison of install sequences through the public API; "
-                  "the verified validator of the chain is run on what the real code installed.")
-    level_note = ("trusted: Coq kernel, Go harness/printer, synthrepo; modelled not verified: Go text of expandPackage/verifyExpanded/cachedPackage/cachePackage/checkSums/installAPKFiles/WriteHeader, "
-                  "gzip, archive/tar, crypto; correspondence is differential testing, not proof")
+    level_text = ("Theorems about an executable model of ExpandApk's cut of the served stream (which member is hashed as control section, that ALL remaining members are the data section, that nothing may follow), "
+                  "its per-file check, verifyExpanded, cachePackage / cachedPackage over the three cache files, the process-wide memo, and the lazy and streaming installs (regular files, symlinks, hard links, other types), "
+                  "for all handles, served streams, cache contents satisfying the population invariant and memo states; c05_end_to_end: under collision resistance every installed file's bytes are the body of an entry of the "
+                  "data bytes whose SHA-256 the control member records whose SHA-1 the handle records, for the cold, warm-cache and memo paths and both install paths; tied to the code by differential comparison of "
+                  "install sequences through the public API; the verified validator of the chain is run on what the real code installed.")
+    level_note = ("trusted: Coq kernel, Go harness/printer (its gzip/tar/.PKGINFO decoding fills the oracle tables), synthrepo; modelled not verified: Go text of ExpandApk/expandApkWriter.Next/checkSums/expandPackage/"
+                  "verifyExpanded/cachedPackage/cachePackage/PackageData/apkCache.get/installAPKFiles/WriteHeader, gzip, archive/tar, crypto; correspondence is differential testing, not proof")
     design_ref = "DESIGN.md 7 C05"
-    modelled_not_verified = ("expandPackage, verifyExpanded, cachedPackage, cachePackage, apkCache.get, checkSums, installAPKFiles/installRegularFile, tarfs WriteHeader are modelled by hand (Model/PkgAuth.v); "
-                             "ExpandApk's stream splitting, tarfs indexing and the cache's file protocol are exercised by the install stage only")
+    modelled_not_verified = ("ExpandApk (member cut, hashes, checkSums), expandPackage, verifyExpanded, cachedPackage, cachePackage, PackageData's rebuild, apkCache.get, installAPKFiles/installRegularFile, "
+                             "tarfs WriteHeader are modelled by hand (Model/PkgAuth.v); not modelled: sizes recorded in APKExpanded, the .sig.tar.gz cache file, cacheDirForPackage (C18), "
+                             "the temp-file protocol of the cache (C19), conflicts between packages (C07), isInstalledPackage's skip, scripts.tar / triggers written from the control file")
 
 PROP = P()
